@@ -492,6 +492,9 @@ func (m *Machine) actSchedule(t *rapid.T, onlyPipeline string) {
 			return
 		}
 		if exp != admReject {
+			if m.pipeGen[p] > 0 {
+				m.fail("C16", "a request for %s after a reload is rejected (%v) with running=%d waiting=%d, the definition in force says %s", p, err, len(running), len(waiting), exp)
+			}
 			m.fail("C05", "schedule request for %s rejected (%v) with running=%d waiting=%d: expected %s", p, err, len(running), len(waiting), exp)
 			m.fail("C03", "schedule request for %s rejected (%v) with running=%d waiting=%d although the queue has room", p, err, len(running), len(waiting))
 		}
@@ -543,6 +546,9 @@ func (m *Machine) actSchedule(t *rapid.T, onlyPipeline string) {
 	}
 	switch exp {
 	case admReject:
+		if m.pipeGen[p] > 0 {
+			m.fail("C16", "a request for %s after a reload is accepted with running=%d waiting=%d, the definition in force says reject (limit=%v strategy=%v delay=%v)", p, len(running), len(waiting), limStr(def), def.QueueStrategy, def.StartDelay)
+		}
 		m.fail("C05", "schedule request for %s accepted with running=%d waiting=%d limit=%v strategy=%v delay=%v: expected rejection", p, len(running), len(waiting), limStr(def), def.QueueStrategy, def.StartDelay)
 	case admStart:
 		// "at once": by the time the runner is quiescent again the job has started (it is not on the wait list)
@@ -553,6 +559,9 @@ func (m *Machine) actSchedule(t *rapid.T, onlyPipeline string) {
 		if immediate {
 			m.fail("C05", "schedule request for %s started at once with running=%d concurrency=%d delay=%v: expected %s", p, len(running), def.Concurrency, def.StartDelay, exp)
 			m.fail("C01", "schedule request for %s started at once with running=%d concurrency=%d delay=%v", p, len(running), def.Concurrency, def.StartDelay)
+			if m.pipeGen[p] > 0 {
+				m.fail("C16", "a job of %s accepted after a reload is started at once with running=%d, the definition in force says concurrency=%d delay=%v (expected %s)", p, len(running), def.Concurrency, def.StartDelay, exp)
+			}
 		} else if !js.Waiting() {
 			m.fail("C05", "job #%d should be waiting but is reported started=%v canceled=%v", rec.AcceptIdx, js.Start != nil, js.Canceled)
 		}
